@@ -1769,6 +1769,765 @@ GENERATORS["Biccs"] = gen_biccs
 
 
 # ---------------------------------------------------------------------------------------------------------
+# GFA.path_exists / GFA.extract_path / utils.rev_comp / find_path.run, statement by statement (C14 and its string level)
+
+PW_PREAMBLE = """import Gaftools.Model.TextLayer
+/-! %s -/
+set_option linter.unusedVariables false
+namespace Gaftools.Gen.PathWalk
+open Gaftools.Gfa Gaftools.TextLayer
+
+/-- how a statement sequence inside a loop body ends: it falls through (with the loop-carried variables), it executes `return v`,
+    or it raises -/
+inductive Flow (σ α : Type) where
+  | cont (s : σ)
+  | ret (v : α)
+  | exc (e : PyErr)
+
+/-- `for x in l: body` over the loop-carried variables `s` -/
+def forEach {ι σ α : Type} (l : List ι) (s : σ) (body : σ → ι → Flow σ α) : Flow σ α :=
+  match l with
+  | [] => .cont s
+  | x :: xs =>
+    match body s x with
+    | .cont s' => forEach xs s' body
+    | .ret v => .ret v
+    | .exc e => .exc e
+
+/-- a non-empty Python string seen as its first character and the rest: `n[0]` = `n.1`, `n[1:]` = `n.2` -/
+abbrev Tok := Char × String
+
+/-- `l[i]` for a Python integer (negative = from the end); `none` = `IndexError` -/
+def pyGet {α : Type} (l : List α) (i : Int) : Option α :=
+  if i < 0 then (if (l.length : Int) + i < 0 then none else l[((l.length : Int) + i).toNat]?) else l[i.toNat]?
+
+/-- `range(a, b)` -/
+def pyRange (a b : Int) : List Int := (List.range (b - a).toNat).map (fun (k : Nat) => a + (k : Int))
+
+/-- `d[k]` for a dict literal with distinct keys; `none` = `KeyError` -/
+def dictGet {κ ν : Type} [BEq κ] (d : List (κ × ν)) (k : κ) : Option ν := (d.find? (fun e => e.1 == k)).map (fun e => e.2)
+
+/-- `getattr(node, "end")` (`true`) / `getattr(node, "start")` (`false`) -/
+def sideSet (n : Node) (side : Bool) : List Adj := if side then n.endAdj else n.startAdj
+
+/-- `re.findall("[H][R]+", ·)` (`min` = 1) / `re.findall("[H][R]*", ·)` (`min` = 0): one left-to-right scan; the state is the
+    pending first character and the (reversed) greedy run after it -/
+def findall (H R : Char → Bool) (min : Nat) : Option (Char × List Char) → List Char → List Tok
+  | none, [] => []
+  | some (c, acc), [] => if acc.length ≥ min then [(c, String.ofList acc.reverse)] else []
+  | none, x :: xs => if H x then findall H R min (some (x, [])) xs else findall H R min none xs
+  | some (c, acc), x :: xs =>
+    if R x then findall H R min (some (c, x :: acc)) xs
+    else (if acc.length ≥ min then [(c, String.ofList acc.reverse)] else []) ++
+      (if H x then findall H R min (some (x, [])) xs else findall H R min none xs)
+"""
+
+_PW_RESERVED = {"g", "out", "st", "v", "e", "c", "fun", "match", "with", "let", "if", "then", "else", "end", "from", "at", "do", "in", "have", "show",
+                "open", "def", "where", "by", "Type", "Prop", "Sort", "forEach", "pyGet", "pyRange", "dictGet", "sideSet", "findall", "revComp",
+                "complement", "pathExists", "extractPath", "run", "deriving", "instance", "structure", "theorem", "namespace", "section",
+                "import", "mutual", "class", "return", "for", "unless", "try", "catch", "finally", "some", "none", "true", "false"}
+
+
+def _pw_char(ch):
+    if len(ch) != 1 or ch in "'\\" or not (32 <= ord(ch) < 127):
+        raise Untranslatable("character literal %r" % ch)
+    return "'%s'" % ch
+
+
+def _pw_str(s):
+    if any(not (32 <= ord(ch) < 127) or ch in '"\\' for ch in s):
+        raise Untranslatable("string literal %r" % s)
+    return '"%s"' % s
+
+
+def _pw_regex(rx):
+    """`[ab][^ab]+` / `[ab][^ab]*` -> (H, R, min): class of the first character, class of the run, least length of the run"""
+    m = re.fullmatch(r"\[([^\]\[\\^-]+)\]\[(\^?)([^\]\[\\^-]+)\]([+*])", rx)
+    if not m:
+        raise Untranslatable("regular expression %r is not `[..][..]+`" % rx)
+
+    def cls(chars):
+        return " || ".join("c == %s" % _pw_char(ch) for ch in chars)
+    H = "(fun c => %s)" % cls(m.group(1))
+    R = "(fun c => !(%s))" % cls(m.group(3)) if m.group(2) else "(fun c => %s)" % cls(m.group(3))
+    return H, R, 1 if m.group(4) == "+" else 0
+
+
+class PWFun:
+    """one Python function -> one Lean definition of type `Except PyErr α`; typed, statement by statement.
+
+    Types: 'str' 'char' 'int' 'bool' 'tok' (first character, rest) 'node' 'edge' 'case' (value of the `cases` table: side name as
+    Bool, side number as Bool) 'side' 'bit' 'graph' 'skip' ('list', T) ('tuple', T, U) ('dict', 'case')."""
+
+    def __init__(self, fn, env, unit_result=False):
+        self.fn = fn
+        self.n = 0
+        self.unit = unit_result          # the function returns nothing: its result is what it printed (`out`)
+        self.env0 = env
+        self.writer = None
+
+    # ---- names
+    def fresh(self):
+        self.n += 1
+        return "x%d" % self.n
+
+    @staticmethod
+    def lname(py):
+        return py + "_" if (py in _PW_RESERVED or re.fullmatch(r"x\d+", py)) else py
+
+    # ---- how `return` / `raise` are written at top level and inside a loop body
+    def ret(self, mode, v):
+        if self.unit:
+            v = "out"
+        return (".ok %s" if mode == "top" else ".ret %s") % v
+
+    def exc(self, mode, e):
+        return (".error %s" if mode == "top" else ".exc %s") % e
+
+    # ---- expressions: returns (lean term, type); exceptions of sub-expressions are hoisted (in evaluation order) into `hoist`
+    def ex(self, e, env, hoist):
+        if isinstance(e, ast.Constant):
+            if isinstance(e.value, bool):
+                return ("true" if e.value else "false"), "bool"
+            if isinstance(e.value, int):
+                return "(%d : Int)" % e.value, "int"
+            if isinstance(e.value, str):
+                return _pw_str(e.value), "str"
+            raise Untranslatable("constant %r" % (e.value,))
+        if isinstance(e, ast.UnaryOp) and isinstance(e.op, ast.USub) and isinstance(e.operand, ast.Constant) and type(e.operand.value) is int:
+            return "(-%d : Int)" % e.operand.value, "int"
+        if isinstance(e, ast.UnaryOp) and isinstance(e.op, ast.Not):
+            t, ty = self.ex(e.operand, env, hoist)
+            if ty != "bool":
+                raise Untranslatable("truth value of a %s: %s" % (ty, ast.unparse(e.operand)))
+            return "(!%s)" % t, "bool"
+        if isinstance(e, ast.Name):
+            if e.id not in env:
+                raise Untranslatable("name %s is not (always) defined here" % e.id)
+            t, ty = env[e.id]
+            if ty in ("skip", "graph", "writer", "gfapath", "outpath"):
+                raise Untranslatable("use of %s" % e.id)
+            return t, ty
+        if isinstance(e, ast.BinOp) and type(e.op) in (ast.Add, ast.Sub):
+            a, ta = self.ex(e.left, env, hoist)
+            b, tb = self.ex(e.right, env, hoist)
+            if ta == tb == "int":
+                return "(%s %s %s)" % (a, "+" if isinstance(e.op, ast.Add) else "-", b), "int"
+            if ta == tb == "str" and isinstance(e.op, ast.Add):
+                return "(%s ++ %s)" % (a, b), "str"
+            raise Untranslatable("arithmetic on %s, %s" % (ta, tb))
+        if isinstance(e, ast.BoolOp):
+            parts = []
+            for i, x in enumerate(e.values):
+                h = []
+                t, ty = self.ex(x, env, h)
+                if ty != "bool":
+                    raise Untranslatable("truth value of a %s" % (ty,))
+                if h and i > 0:
+                    raise Untranslatable("an operand of and/or that can raise: %s" % ast.unparse(x))
+                hoist.extend(h)
+                parts.append(t)
+            return "(" + (" && " if isinstance(e.op, ast.And) else " || ").join(parts) + ")", "bool"
+        if isinstance(e, ast.JoinedStr):
+            parts = []
+            for p in e.values:
+                if isinstance(p, ast.Constant) and isinstance(p.value, str):
+                    parts.append(_pw_str(p.value))
+                elif isinstance(p, ast.FormattedValue) and p.conversion == -1 and p.format_spec is None:
+                    t, ty = self.ex(p.value, env, hoist)
+                    if ty != "str":
+                        raise Untranslatable("f-string field of type %s" % (ty,))
+                    parts.append(t)
+                else:
+                    raise Untranslatable("f-string part %s" % ast.dump(p))
+            return "(" + " ++ ".join(parts) + ")" if len(parts) > 1 else (parts[0] if parts else '""'), "str"
+        if isinstance(e, ast.List):
+            if not e.elts:
+                return "[]", ("list", None)
+            ts = [self.ex(x, env, hoist) for x in e.elts]
+            if any(t[1] != ts[0][1] for t in ts):
+                raise Untranslatable("list of mixed types")
+            return "[" + ", ".join(t[0] for t in ts) + "]", ("list", ts[0][1])
+        if isinstance(e, ast.Tuple) and len(e.elts) == 2:
+            a, ta = self.ex(e.elts[0], env, hoist)
+            b, tb = self.ex(e.elts[1], env, hoist)
+            return "(%s, %s)" % (a, b), ("tuple", ta, tb)
+        if isinstance(e, ast.Attribute):
+            if e.attr == "seq":
+                t, ty = self.ex(e.value, env, hoist)
+                if ty == "node":
+                    return "%s.seq" % t, "str"
+            raise Untranslatable("attribute %s" % ast.unparse(e))
+        if isinstance(e, ast.Subscript):
+            return self.subscript(e, env, hoist)
+        if isinstance(e, ast.Compare) and len(e.ops) == 1:
+            return self.compare(e, env, hoist)
+        if isinstance(e, ast.Call):
+            return self.call(e, env, hoist)
+        raise Untranslatable("expression %s" % ast.unparse(e)[:70])
+
+    def is_graph(self, e, env):
+        return isinstance(e, ast.Name) and e.id in env and env[e.id][1] == "graph"
+
+    def opt(self, hoist, scrut, err, ty):
+        x = self.fresh()
+        hoist.append(("opt", scrut, err, x))
+        return x, ty
+
+    def subscript(self, e, env, hoist):
+        v, s = e.value, e.slice
+        # self.nodes[k]
+        if isinstance(v, ast.Attribute) and v.attr == "nodes" and self.is_graph(v.value, env):
+            k, tk = self.ex(s, env, hoist)
+            if tk != "str":
+                raise Untranslatable("node key of type %s" % (tk,))
+            return self.opt(hoist, "g.find %s" % k, ".keyError", "node")
+        t, ty = self.ex(v, env, hoist)
+        if isinstance(s, ast.Slice):
+            if (ty == "tok" and isinstance(s.lower, ast.Constant) and s.lower.value == 1 and type(s.lower.value) is int
+                    and s.upper is None and s.step is None):
+                return "%s.2" % t, "str"
+            raise Untranslatable("slice %s" % ast.unparse(e))
+        const = s.value if isinstance(s, ast.Constant) and type(s.value) is int else None
+        if ty == "tok" and const == 0:
+            return "%s.1" % t, "char"
+        if ty == "case" and const in (0, 1):
+            return "%s.%d" % (t, const + 1), ("side" if const == 0 else "bit")
+        if ty == "edge" and const in (0, 1):
+            return ("%s.1" % t, "str") if const == 0 else ("%s.2.1" % t, "bit")
+        if isinstance(ty, tuple) and ty[0] == "dict":
+            raise Untranslatable("table lookup outside `try`: %s" % ast.unparse(e))
+        i, ti = self.ex(s, env, hoist)
+        if ti != "int":
+            raise Untranslatable("index of type %s" % (ti,))
+        if ty == "str":
+            return self.opt(hoist, "pyGet %s.toList %s" % (t, i), ".indexError", "char")
+        if isinstance(ty, tuple) and ty[0] == "list" and ty[1] is not None:
+            return self.opt(hoist, "pyGet %s %s" % (t, i), ".indexError", ty[1])
+        if ty == ("list", None) and isinstance(v, ast.Name):
+            # an element of a list that is still empty here: its type is fixed by the use (`settle`)
+            return self.opt(hoist, "pyGet %s %s" % (t, i), ".indexError", ("?", v.id))
+        raise Untranslatable("subscript of a %s: %s" % (ty, ast.unparse(e)))
+
+    def settle(self, ty, want, env):
+        """an element of a list whose element type is still open takes the type its use requires"""
+        if isinstance(ty, tuple) and ty[0] == "?" and not isinstance(want, tuple):
+            name = ty[1]
+            if name in env and env[name][1] == ("list", None):
+                env[name] = (env[name][0], ("list", want))
+                self.list_elem[name] = want
+                return want
+            if name in env and env[name][1] == ("list", want):
+                return want
+        return ty
+
+    def as_char(self, e, env, hoist):
+        if isinstance(e, ast.Constant) and isinstance(e.value, str):
+            if len(e.value) != 1:
+                raise Untranslatable("a character is compared with %r" % e.value)
+            return _pw_char(e.value)
+        t, ty = self.ex(e, env, hoist)
+        if ty != "char":
+            raise Untranslatable("expected a character: %s" % ast.unparse(e))
+        return t
+
+    def coerce(self, e, want, env, hoist):
+        """translate `e` at type `want` ('char' and 'bit' accept the matching constants)"""
+        if want == "char":
+            return self.as_char(e, env, hoist)
+        if want == "bit" and isinstance(e, ast.Constant) and type(e.value) is int and e.value in (0, 1):
+            return "true" if e.value == 1 else "false"
+        if isinstance(want, tuple) and want[0] == "tuple" and isinstance(e, ast.Tuple) and len(e.elts) == 2:
+            return "(%s, %s)" % (self.coerce(e.elts[0], want[1], env, hoist), self.coerce(e.elts[1], want[2], env, hoist))
+        t, ty = self.ex(e, env, hoist)
+        ty = self.settle(ty, want, env)
+        if ty != want:
+            raise Untranslatable("%s has type %s, expected %s" % (ast.unparse(e), ty, want))
+        return t
+
+    def static_type(self, e, env):
+        """type of `e` without emitting anything (constants of one character count as 'char', 0/1 as 'bit' only through `coerce`)"""
+        t, ty = self.ex(e, dict(env), [])
+        return ty
+
+    def compare(self, e, env, hoist):
+        l, r, op = e.left, e.comparators[0], type(e.ops[0])
+        if op in (ast.In, ast.NotIn):
+            if self.is_graph(r, env):
+                k, tk = self.ex(l, env, hoist)
+                if tk != "str":
+                    raise Untranslatable("membership of a %s in the graph" % (tk,))
+                c = "(g.has %s)" % k
+            elif isinstance(r, (ast.List, ast.Set, ast.Tuple)) and r.elts and all(isinstance(x, ast.Constant) and isinstance(x.value, str) and len(x.value) == 1 for x in r.elts):
+                c = "([%s].contains %s)" % (", ".join(_pw_char(x.value) for x in r.elts), self.as_char(l, env, hoist))
+            else:
+                raise Untranslatable("membership test %s" % ast.unparse(e))
+            return (c if op is ast.In else "(!%s)" % c), "bool"
+        if op in (ast.Eq, ast.NotEq):
+            # type of the side that is not a bare constant decides
+            def shape(x):
+                try:
+                    return self.static_type(x, env)
+                except Untranslatable:
+                    return None
+            tl, tr = shape(l), shape(r)
+
+            def refine(a, b):       # a 'str'/'int' constant position takes the type of the other side
+                if isinstance(a, tuple) and isinstance(b, tuple) and a[0] == b[0] == "tuple":
+                    return ("tuple", refine(a[1], b[1]), refine(a[2], b[2]))
+                if a in ("str", "int") and b in ("char", "bit"):
+                    return b
+                return a
+            if tl is None or tr is None:
+                raise Untranslatable("comparison %s" % ast.unparse(e))
+            want = refine(refine(tl, tr), refine(tr, tl))
+            if want in ("skip", "graph", "writer", "node") or (isinstance(want, tuple) and want[0] in ("list", "dict")):
+                raise Untranslatable("equality of %s" % (want,))
+            a = self.coerce(l, want, env, hoist)
+            b = self.coerce(r, want, env, hoist)
+            c = "(%s == %s)" % (a, b)
+            return (c if op is ast.Eq else "(!%s)" % c), "bool"
+        if op in (ast.Lt, ast.LtE, ast.Gt, ast.GtE):
+            a, ta = self.ex(l, env, hoist)
+            b, tb = self.ex(r, env, hoist)
+            if ta == tb == "int":
+                return "decide (%s %s %s)" % (a, {ast.Lt: "<", ast.LtE: "≤", ast.Gt: ">", ast.GtE: "≥"}[op], b), "bool"
+        raise Untranslatable("comparison %s" % ast.unparse(e))
+
+    def call(self, e, env, hoist):
+        f, a = e.func, e.args
+        u = ast.unparse(f)
+        if e.keywords:
+            raise Untranslatable("keyword arguments: %s" % ast.unparse(e)[:60])
+        if u == "len" and len(a) == 1:
+            t, ty = self.ex(a[0], env, hoist)
+            if ty == "str":
+                return "(%s.toList.length : Int)" % t, "int"
+            if isinstance(ty, tuple) and ty[0] == "list":
+                return "(%s.length : Int)" % t, "int"
+            raise Untranslatable("len of a %s" % (ty,))
+        if u == "getattr" and len(a) == 2:
+            n, tn = self.ex(a[0], env, hoist)
+            s, ts = self.ex(a[1], env, hoist)
+            if tn == "node" and ts == "side":
+                return "(sideSet %s %s)" % (n, s), ("list", "edge")
+            raise Untranslatable("getattr(%s, %s)" % (tn, ts))
+        if u == "re.findall" and len(a) == 2 and isinstance(a[0], ast.Constant) and isinstance(a[0].value, str):
+            H, R, mn = _pw_regex(a[0].value)
+            t, ty = self.ex(a[1], env, hoist)
+            if ty != "str":
+                raise Untranslatable("re.findall on a %s" % (ty,))
+            return "(findall %s %s %d none %s.toList)" % (H, R, mn, t), ("list", "tok")
+        if u == "rev_comp" and len(a) == 1:
+            t, ty = self.ex(a[0], env, hoist)
+            if ty == "str":
+                return "(revComp %s)" % t, "str"
+            raise Untranslatable("rev_comp of a %s" % (ty,))
+        if isinstance(f, ast.Attribute):
+            # methods of the graph
+            if self.is_graph(f.value, env) and f.attr in ("path_exists", "extract_path") and len(a) == 1:
+                t, ty = self.ex(a[0], env, hoist)
+                want, lean, res = {"path_exists": (("list", "tok"), "pathExists", "bool"), "extract_path": ("str", "extractPath", "str")}[f.attr]
+                ty = self.settle(ty, want, env)
+                if ty != want:
+                    raise Untranslatable("%s called on a %s" % (f.attr, ty))
+                x = self.fresh()
+                hoist.append(("exc", "%s g %s" % (lean, t), x))
+                return x, res
+            if f.attr == "join" and len(a) == 1 and isinstance(f.value, ast.Constant) and isinstance(f.value.value, str):
+                t, ty = self.ex(a[0], env, hoist)
+                if ty != ("list", "str"):
+                    raise Untranslatable("join of a %s" % (ty,))
+                return ("(String.join %s)" % t if f.value.value == "" else "(%s.intercalate %s)" % (_pw_str(f.value.value), t)), "str"
+            t, ty = self.ex(f.value, env, hoist)
+            if f.attr == "startswith" and len(a) == 1 and ty == "tok" and isinstance(a[0], ast.Constant) and isinstance(a[0].value, str) and len(a[0].value) == 1:
+                return "(%s.1 == %s)" % (t, _pw_char(a[0].value)), "bool"
+            if f.attr == "strip" and not a and ty == "str":
+                return "(pyStrip %s)" % t, "str"
+        raise Untranslatable("call %s" % ast.unparse(e)[:70])
+
+    # ---- statements
+    @staticmethod
+    def wrap(hoist, mode_exc, lines, ind):
+        """the matches of the hoisted sub-expressions, in evaluation order, around `lines` (already indented by `ind`)"""
+        pad = " " * ind
+        out = []
+        for h in hoist:
+            if h[0] == "opt":
+                out += ["%smatch %s with" % (pad, h[1]), "%s| none => %s" % (pad, mode_exc(h[2])), "%s| some %s =>" % (pad, h[3])]
+            else:
+                out += ["%smatch %s with" % (pad, h[1]), "%s| .error e => %s" % (pad, mode_exc("e")), "%s| .ok %s =>" % (pad, h[2])]
+        return out + lines
+
+    def skippable(self, st, env):
+        """statements with no effect on what the model observes: doc strings, logging, timers, closing files, choosing the output stream"""
+        if isinstance(st, ast.Expr) and isinstance(st.value, ast.Constant):
+            return True
+        if isinstance(st, ast.Pass):
+            return True
+        if isinstance(st, ast.Expr) and isinstance(st.value, ast.Call):
+            u = ast.unparse(st.value.func)
+            if u.split(".")[0] in ("logging", "logger") and "." in u:
+                return True
+            if u == "log_memory_usage" and not st.value.args:
+                return True
+            m = re.fullmatch(r"(\w+)\.close", u)
+            if m and m.group(1) in env and (env[m.group(1)][1] == "writer" or env[m.group(1)][1] == ("list", "str") and env[m.group(1)][0] == "reader") and not st.value.args:
+                return True
+        if isinstance(st, ast.Assign) and len(st.targets) == 1 and isinstance(st.targets[0], ast.Name):
+            v = ast.unparse(st.value)
+            if v == "StageTimer()" or re.fullmatch(r"\w+\.total\(\)", v) and v.split(".")[0] in env and env[v.split(".")[0]][1] == "skip":
+                env[st.targets[0].id] = (None, "skip")
+                return True
+            if v == "sys.stdout" or (isinstance(st.value, ast.Call) and ast.unparse(st.value.func) == "open" and len(st.value.args) == 2
+                                     and isinstance(st.value.args[0], ast.Name) and env.get(st.value.args[0].id, (None, None))[1] == "outpath"
+                                     and ast.unparse(st.value.args[1]) == "'w'" and not st.value.keywords):
+                env[st.targets[0].id] = (None, "writer")
+                return True
+        if isinstance(st, ast.If):
+            t = st.test
+            if (isinstance(t, ast.Compare) and len(t.ops) == 1 and isinstance(t.ops[0], (ast.Is, ast.IsNot)) and isinstance(t.left, ast.Name)
+                    and env.get(t.left.id, (None, None))[1] == "outpath" and isinstance(t.comparators[0], ast.Constant) and t.comparators[0].value is None):
+                e1, e2 = dict(env), dict(env)
+                if all(self.skippable(x, e1) for x in st.body) and all(self.skippable(x, e2) for x in st.orelse):
+                    for k in set(e1) & set(e2):
+                        if k not in env and e1[k] == e2[k]:
+                            env[k] = e1[k]
+                    return True
+        return False
+
+    @staticmethod
+    def assigned(stmts):
+        """names (re)bound or mutated by the statements, in order of first occurrence; `print` mutates `out`"""
+        out = []
+
+        def add(n):
+            if n not in out:
+                out.append(n)
+        for st in stmts:
+            for n in ast.walk(st):
+                if isinstance(n, (ast.Assign, ast.AugAssign, ast.AnnAssign)):
+                    for t in (n.targets if isinstance(n, ast.Assign) else [n.target]):
+                        for x in ast.walk(t):
+                            if isinstance(x, ast.Name):
+                                add(x.id)
+                elif isinstance(n, ast.For):
+                    for x in ast.walk(n.target):
+                        if isinstance(x, ast.Name):
+                            add(x.id)
+                elif isinstance(n, ast.Call) and isinstance(n.func, ast.Attribute) and isinstance(n.func.value, ast.Name) and n.func.attr in ("append", "add", "extend", "pop", "remove", "clear", "insert", "sort", "reverse", "update"):
+                    add(n.func.value.id)
+                elif isinstance(n, ast.Call) and ast.unparse(n.func) == "print":
+                    add("<out>")
+                elif isinstance(n, (ast.NamedExpr, ast.With, ast.Delete, ast.Global, ast.Nonlocal, ast.Import, ast.ImportFrom, ast.FunctionDef, ast.ClassDef, ast.Lambda)):
+                    raise Untranslatable("statement kind %s" % type(n).__name__)
+        return out
+
+    def block(self, stmts, env, mode, k, ind):
+        """lines of the Lean term for the statement list; `k(env, ind)` gives the lines for falling off its end"""
+        pad = " " * ind
+        if not stmts:
+            return k(env, ind)
+        st, rest = stmts[0], stmts[1:]
+        env = dict(env)
+        mexc = lambda c: self.exc(mode, c)      # noqa: E731
+        if self.skippable(st, env):
+            return self.block(rest, env, mode, k, ind)
+        hoist = []
+        if isinstance(st, ast.Return):
+            if st.value is None or (isinstance(st.value, ast.Constant) and st.value.value is None):
+                if not self.unit:
+                    raise Untranslatable("bare return")
+                return [pad + self.ret(mode, "out")]
+            t, ty = self.ex(st.value, env, hoist)
+            if self.unit or ty != self.rtype:
+                raise Untranslatable("return of a %s" % (ty,))
+            return self.wrap(hoist, mexc, [pad + self.ret(mode, t)], ind)
+        if isinstance(st, ast.Continue):
+            if mode != "loop":
+                raise Untranslatable("continue outside a loop")
+            return self.loop_k[-1](env, ind)
+        if isinstance(st, ast.Assign) and len(st.targets) == 1 and isinstance(st.targets[0], ast.Name):
+            name = st.targets[0].id
+            v = st.value
+            if isinstance(v, ast.Dict):
+                entries = _dict_literal(v)
+                keys = [kk for kk, _ in entries]
+                if len(set(keys)) != len(keys):
+                    raise Untranslatable("table with a repeated key")
+                side = {"end": "true", "start": "false"}
+                bit = {1: "true", 0: "false"}
+                items = []
+                for kk, vv in entries:
+                    if not (all(isinstance(x, str) and len(x) == 1 for x in kk) and vv[0] in side and type(vv[1]) is int and vv[1] in bit):
+                        raise Untranslatable("table entry %r: %r" % (kk, vv))
+                    items.append("((%s, %s), (%s, %s))" % (_pw_char(kk[0]), _pw_char(kk[1]), side[vv[0]], bit[vv[1]]))
+                ln = self.lname(name)
+                env[name] = (ln, ("dict", "case"))
+                return ["%slet %s : List ((Char × Char) × (Bool × Bool)) := [%s]" % (pad, ln, ", ".join(items))] + self.block(rest, env, mode, k, ind)
+            if isinstance(v, ast.Call) and ast.unparse(v.func) == "GFA" and len(v.args) == 1 and isinstance(v.args[0], ast.Name) \
+                    and env.get(v.args[0].id, (None, None))[1] == "gfapath" and not v.keywords:
+                env[name] = ("g", "graph")
+                return self.block(rest, env, mode, k, ind)
+            if isinstance(v, ast.Call) and ast.unparse(v.func) == "open":
+                if not (len(v.args) == 2 and isinstance(v.args[0], ast.Name) and env.get(v.args[0].id, (None, None))[1] == "str"
+                        and env[v.args[0].id][0] == self.input_path and ast.unparse(v.args[1]) == "'r'" and not v.keywords and name == "reader"):
+                    raise Untranslatable("open: %s" % ast.unparse(st))
+                env[name] = ("reader", ("list", "str"))
+                return ["%smatch reader? with" % pad, "%s| none => %s" % (pad, mexc(".osError")), "%s| some reader =>" % pad] + self.block(rest, env, mode, k, ind)
+            t, ty = self.ex(v, env, hoist)
+            ln = self.lname(name)
+            env[name] = (ln, ty)
+            if ty == ("list", None):
+                line = "%slet %s : List _ := %s" % (pad, ln, t)
+            else:
+                line = "%slet %s := %s" % (pad, ln, t)
+            return self.wrap(hoist, mexc, [line] + self.block(rest, env, mode, k, ind), ind)
+        if isinstance(st, ast.Expr) and isinstance(st.value, ast.Call):
+            c = st.value
+            u = ast.unparse(c.func)
+            if isinstance(c.func, ast.Attribute) and c.func.attr == "append" and isinstance(c.func.value, ast.Name) and len(c.args) == 1 and not c.keywords:
+                name = c.func.value.id
+                if name not in env or not (isinstance(env[name][1], tuple) and env[name][1][0] == "list"):
+                    raise Untranslatable("append to %s" % name)
+                ln, lty = env[name]
+                t, ty = self.ex(c.args[0], env, hoist)
+                lty = env[name][1]
+                if isinstance(ty, tuple) and ty[0] == "?":
+                    raise Untranslatable("append of an element of a still-empty list")
+                if lty[1] is not None and lty[1] != ty:
+                    raise Untranslatable("append of a %s to a list of %s" % (ty, lty[1]))
+                env[name] = (ln, ("list", ty))
+                self.list_elem[name] = ty
+                return self.wrap(hoist, mexc, ["%slet %s := %s ++ [%s]" % (pad, ln, ln, t)] + self.block(rest, env, mode, k, ind), ind)
+            if u == "print" and len(c.args) == 1 and len(c.keywords) == 1 and c.keywords[0].arg == "file" and isinstance(c.keywords[0].value, ast.Name) \
+                    and env.get(c.keywords[0].value.id, (None, None))[1] == "writer" and self.unit:
+                t, ty = self.ex(c.args[0], env, hoist)
+                ty = self.settle(ty, "str", env)
+                if ty != "str":
+                    raise Untranslatable("print of a %s" % (ty,))
+                return self.wrap(hoist, mexc, ["%slet out := out ++ [%s]" % (pad, t)] + self.block(rest, env, mode, k, ind), ind)
+            raise Untranslatable("call statement %s" % ast.unparse(st)[:70])
+        if isinstance(st, ast.If):
+            t, ty = self.ex(st.test, env, hoist)
+            if ty != "bool":
+                raise Untranslatable("truth value of a %s: %s" % (ty, ast.unparse(st.test)))
+            then = self.block(st.body if Tr.always_returns(st.body) else st.body + rest, env, mode, k, ind + 2)
+            els = self.block(st.orelse if Tr.always_returns(st.orelse) else st.orelse + rest, env, mode, k, ind + 2)
+            return self.wrap(hoist, mexc, ["%sif %s then" % (pad, t)] + then + ["%selse" % pad] + els, ind)
+        if isinstance(st, ast.Try):
+            if not (len(st.body) == 1 and isinstance(st.body[0], ast.Assign) and len(st.body[0].targets) == 1 and isinstance(st.body[0].targets[0], ast.Name)
+                    and isinstance(st.body[0].value, ast.Subscript) and isinstance(st.body[0].value.value, ast.Name)
+                    and len(st.handlers) == 1 and isinstance(st.handlers[0].type, ast.Name) and st.handlers[0].type.id == "KeyError"
+                    and st.handlers[0].name is None and not st.orelse and not st.finalbody):
+                raise Untranslatable("try statement: %s" % ast.unparse(st)[:70])
+            sub = st.body[0].value
+            tbl = sub.value.id
+            if tbl not in env or env[tbl][1] != ("dict", "case"):
+                raise Untranslatable("try around something else than a table lookup")
+            key = self.coerce(sub.slice, ("tuple", "char", "char"), env, hoist)
+            if hoist:
+                raise Untranslatable("the key of the table lookup can raise")
+            x = self.fresh()
+            name = st.body[0].targets[0].id
+            env2 = dict(env)
+            env2[name] = (self.lname(name), "case")
+            hb = st.handlers[0].body
+            handler = self.block(hb if Tr.always_returns(hb) else hb + rest, env, mode, k, ind + 2)
+            return (["%smatch dictGet %s %s with" % (pad, env[tbl][0], key), "%s| none =>" % pad] + handler +
+                    ["%s| some %s =>" % (pad, x), "%slet %s := %s" % (pad, self.lname(name), x)] + self.block(rest, env2, mode, k, ind))
+        if isinstance(st, ast.For):
+            return self.for_loop(st, rest, env, mode, k, ind)
+        raise Untranslatable("statement %s" % ast.unparse(st)[:70])
+
+    def for_loop(self, st, rest, env, mode, k, ind):
+        pad = " " * ind
+        if st.orelse:
+            raise Untranslatable("for/else")
+        for n in ast.walk(st):
+            if isinstance(n, ast.Break):
+                raise Untranslatable("break")
+        mexc = lambda c: self.exc(mode, c)      # noqa: E731
+        hoist = []
+        it = st.iter
+        if isinstance(it, ast.Call) and ast.unparse(it.func) == "range" and len(it.args) == 2 and not it.keywords:
+            a, ta = self.ex(it.args[0], env, hoist)
+            b, tb = self.ex(it.args[1], env, hoist)
+            if not (ta == tb == "int"):
+                raise Untranslatable("range over %s, %s" % (ta, tb))
+            lst, ety = "(pyRange %s %s)" % (a, b), "int"
+        elif isinstance(it, ast.Call) and ast.unparse(it.func) == "zip" and len(it.args) == 2 and not it.keywords:
+            a, ta = self.ex(it.args[0], env, hoist)
+            b, tb = self.ex(it.args[1], env, hoist)
+            if not (isinstance(ta, tuple) and isinstance(tb, tuple) and ta[0] == tb[0] == "list" and ta[1] and tb[1]):
+                raise Untranslatable("zip over %s, %s" % (ta, tb))
+            lst, ety = "(List.zip %s %s)" % (a, b), ("tuple", ta[1], tb[1])
+        else:
+            lst, ty = self.ex(it, env, hoist)
+            if not (isinstance(ty, tuple) and ty[0] == "list" and ty[1] is not None):
+                raise Untranslatable("loop over a %s" % (ty,))
+            ety = ty[1]
+        # loop-carried variables: bound before the loop and (re)bound or mutated inside it
+        targets = [x.id for x in ast.walk(st.target) if isinstance(x, ast.Name)]
+        carried = [n for n in self.assigned(st.body) if n in env and n not in targets]
+        for n in carried:
+            if env[n][1] in ("skip", "graph", "writer", "gfapath", "outpath") or env[n][0] is None:
+                raise Untranslatable("the loop rebinds %s" % n)
+        names = [env[n][0] for n in carried]
+
+        def state(e):
+            ns = [e[n][0] for n in carried]
+            return "()" if not ns else (ns[0] if len(ns) == 1 else "(" + ", ".join(ns) + ")")
+
+        def unpack(var, ind2):
+            if len(names) < 2:
+                return []
+            out = []
+            for i, n in enumerate(names):
+                proj = ".2" * i + (".1" if i < len(names) - 1 else "")
+                out.append("%slet %s := %s%s" % (" " * ind2, n, var, proj))
+            return out
+        svar = "_" if not names else (names[0] if len(names) == 1 else "st")
+        benv = dict(env)
+        tl = []
+        if isinstance(st.target, ast.Name):
+            tvar = self.lname(st.target.id)
+            benv[st.target.id] = (tvar, ety)
+        elif isinstance(st.target, ast.Tuple) and len(st.target.elts) == 2 and all(isinstance(x, ast.Name) for x in st.target.elts) \
+                and isinstance(ety, tuple) and ety[0] == "tuple":
+            tvar = self.fresh()
+            for i, x in enumerate(st.target.elts):
+                benv[x.id] = (self.lname(x.id), ety[i + 1])
+                tl.append("%slet %s := %s.%d" % (" " * (ind + 2), self.lname(x.id), tvar, i + 1))
+        else:
+            raise Untranslatable("loop target %s" % ast.unparse(st.target))
+        # a still-empty list carried through the loop gets its element type from the first append in the body
+        body_k = lambda e, i2: [" " * i2 + ".cont " + state(e)]      # noqa: E731
+        self.loop_k.append(body_k)
+        body = self.block(st.body, benv, "loop", body_k, ind + 2)
+        self.loop_k.pop()
+        body[-1] = body[-1] + ") with"
+        aenv = dict(env)
+        for n in carried:
+            if env[n][1] == ("list", None):
+                ty = self.list_elem.get(n)
+                if ty is None:
+                    raise Untranslatable("element type of %s" % n)
+                aenv[n] = (env[n][0], ("list", ty))
+        lines = ["%smatch forEach %s %s (fun %s %s =>" % (pad, lst, state(env), svar, tvar)] + unpack("st", ind + 2) + tl + body
+        lines += ["%s| .ret v => %s" % (pad, ".ok v" if mode == "top" else ".ret v"), "%s| .exc e => %s" % (pad, mexc("e")), "%s| .cont %s =>" % (pad, svar)]
+        lines += unpack("st", ind)
+        return self.wrap(hoist, mexc, lines + self.block(rest, aenv, mode, k, ind), ind)
+
+    def translate(self, rtype):
+        self.rtype = rtype
+        self.loop_k = []
+        self.list_elem = {}
+        env = dict(self.env0)
+
+        def no_fall(e, i):
+            raise Untranslatable("%s can fall off its end" % self.fn.name)
+        k = (lambda e, i: [" " * i + ".ok out"]) if self.unit else no_fall
+        return "\n".join(self.block(list(self.fn.body), env, "top", k, 2))
+
+
+def gen_path_walk():
+    try:
+        return _gen_path_walk()
+    except (Untranslatable, SyntaxError, OSError):
+        raise
+    except Exception as e:        # an AST shape the translator did not foresee is "outside the subset", never an alarm
+        raise Untranslatable("translator: %s: %s" % (type(e).__name__, e))
+
+
+def _pw_simple_args(fn, n):
+    a = fn.args
+    if a.vararg or a.kwarg or a.kwonlyargs or a.posonlyargs or fn.decorator_list or len(a.args) != n:
+        raise Untranslatable("signature of %s" % fn.name)
+    return [x.arg for x in a.args]
+
+
+def _gen_path_walk():
+    _, src = src_of("gaftools/gfa.py")
+    mod = ast.parse(src)
+    nodoc = lambda b: [x for x in b if not (isinstance(x, ast.Expr) and isinstance(x.value, ast.Constant))]      # noqa: E731
+    # `x in self` is membership in the node dictionary
+    cfn = find_func(mod, "__contains__", cls="GFA")
+    cargs = _pw_simple_args(cfn, 2)
+    if [ast.unparse(x) for x in nodoc(cfn.body)] != ["return %s in %s.nodes" % (cargs[1], cargs[0])]:
+        raise Untranslatable("GFA.__contains__ is not membership in self.nodes")
+    # rev_comp comes from utils
+    if not any(isinstance(n, ast.ImportFrom) and n.module == "gaftools.utils" and any(a.name == "rev_comp" and a.asname is None for a in n.names) for n in mod.body):
+        raise Untranslatable("rev_comp is not imported from gaftools.utils")
+    _, usrc = src_of("gaftools/utils.py")
+    umod = ast.parse(usrc)
+    tbl = None
+    for n in umod.body:
+        if isinstance(n, ast.Assign) and len(n.targets) == 1 and isinstance(n.targets[0], ast.Name) and n.targets[0].id == "complement":
+            v = n.value
+            if not (isinstance(v, ast.Call) and ast.unparse(v.func) == "str.maketrans" and len(v.args) == 2 and not v.keywords
+                    and all(isinstance(a, ast.Constant) and isinstance(a.value, str) for a in v.args)):
+                raise Untranslatable("complement = %s" % ast.unparse(v))
+            a, b = v.args[0].value, v.args[1].value
+            if len(a) != len(b) or len(set(a)) != len(a):
+                raise Untranslatable("str.maketrans arguments")
+            tbl = list(zip(a, b))
+    if tbl is None:
+        raise Untranslatable("utils.complement not found")
+    rfn = find_func(umod, "rev_comp")
+    rarg = _pw_simple_args(rfn, 1)[0]
+    rb = nodoc(rfn.body)
+    # `seq[::-1].translate(complement)`: reverse, then map every character through the table (characters not in it are kept)
+    ok = (len(rb) == 1 and isinstance(rb[0], ast.Return) and isinstance(rb[0].value, ast.Call) and not rb[0].value.keywords
+          and isinstance(rb[0].value.func, ast.Attribute) and rb[0].value.func.attr == "translate"
+          and len(rb[0].value.args) == 1 and isinstance(rb[0].value.args[0], ast.Name) and rb[0].value.args[0].id == "complement")
+    if ok:
+        sub = rb[0].value.func.value
+        ok = (isinstance(sub, ast.Subscript) and isinstance(sub.value, ast.Name) and sub.value.id == rarg and isinstance(sub.slice, ast.Slice)
+              and sub.slice.lower is None and sub.slice.upper is None and ast.unparse(sub.slice.step or ast.Constant(1)) == "-1")
+    if not ok:
+        raise Untranslatable("rev_comp is not `seq[::-1].translate(complement)`")
+    rname = PWFun.lname(rarg)
+    out = [PW_PREAMBLE % "generated by harness/translate.py from gaftools/gfa.py (GFA.path_exists, GFA.extract_path), gaftools/utils.py (rev_comp) and\n"
+           "    gaftools/cli/find_path.py (run), statement by statement — do not edit"]
+    out.append("/-- utils.complement = str.maketrans(%s, %s) -/\ndef complement : List (Char × Char) := [%s]\n" % (
+        _pw_str("".join(a for a, _ in tbl)), _pw_str("".join(b for _, b in tbl)), ", ".join("(%s, %s)" % (_pw_char(a), _pw_char(b)) for a, b in tbl)))
+    out.append("/-- utils.rev_comp -/\ndef revComp (%s : String) : String :=\n  String.ofList (%s.toList.reverse.map (fun c => (dictGet complement c).getD c))\n" % (rname, rname))
+    # GFA.path_exists
+    fn = find_func(mod, "path_exists", cls="GFA")
+    a = _pw_simple_args(fn, 2)
+    p = PWFun.lname(a[1])
+    body = PWFun(fn, {a[0]: ("g", "graph"), a[1]: (p, ("list", "tok"))}).translate("bool")
+    out.append("/-- GFA.path_exists on the tokens of `re.findall` -/\ndef pathExists (g : Graph) (%s : List Tok) : Except PyErr Bool :=\n%s\n" % (p, body))
+    # GFA.extract_path
+    fn = find_func(mod, "extract_path", cls="GFA")
+    a = _pw_simple_args(fn, 2)
+    p = PWFun.lname(a[1])
+    body = PWFun(fn, {a[0]: ("g", "graph"), a[1]: (p, "str")}).translate("str")
+    out.append("/-- GFA.extract_path -/\ndef extractPath (g : Graph) (%s : String) : Except PyErr String :=\n%s\n" % (p, body))
+    # find_path.run
+    _, fsrc = src_of("gaftools/cli/find_path.py")
+    fmod = ast.parse(fsrc)
+    if not any(isinstance(n, ast.ImportFrom) and n.module == "gaftools.gfa" and any(x.name == "GFA" and x.asname is None for x in n.names) for n in fmod.body):
+        raise Untranslatable("find_path does not import GFA from gaftools.gfa")
+    fn = find_func(fmod, "run")
+    a = _pw_simple_args(fn, 4)
+    ip, fa = PWFun.lname(a[1]), PWFun.lname(a[3])
+    if "reader" in (ip, fa):
+        raise Untranslatable("parameter named reader")
+    t = PWFun(fn, {a[0]: (None, "gfapath"), a[1]: (ip, "str"), a[2]: (None, "outpath"), a[3]: (fa, "bool"), "<out>": ("out", ("list", "str"))}, unit_result=True)
+    t.input_path = ip
+    body = t.translate(None)
+    out.append("/-- find_path.run after the graph is loaded: the printed lines; `reader?` = the lines of the file named by the second argument\n"
+               "    (`none`: it cannot be opened) -/\n"
+               "def run (g : Graph) (%s : String) (reader? : Option (List String)) (%s : Bool) : Except PyErr (List String) :=\n  let out : List String := []\n%s\n" % (ip, fa, body))
+    return "\n".join(out) + "\nend Gaftools.Gen.PathWalk\n"
+
+
+GENERATORS["PathWalk"] = gen_path_walk
+
+
+# ---------------------------------------------------------------------------------------------------------
 # stat.run_stat: the initial counters, the body of the record loop statement by statement, the loop over the CIGAR
 # tokens, and the arithmetic of the report (C19)
 
@@ -3676,6 +4435,176 @@ def cmpGaf (al1 al2 : Aln) : Option Int := Gaftools.Sort.cmpGaf al1 al2
 end Gaftools.Gen
 """,
 }
+
+FALLBACK["PathWalk"] = PW_PREAMBLE % "FALLBACK (source construct outside the translator's subset): path_exists, extract_path, rev_comp and find_path.run\n"\
+    "    as translated from the source the model was written for" + '''
+/-- utils.complement = str.maketrans("ACGT", "TGCA") -/
+def complement : List (Char × Char) := [('A', 'T'), ('C', 'G'), ('G', 'C'), ('T', 'A')]
+
+/-- utils.rev_comp -/
+def revComp (seq : String) : String :=
+  String.ofList (seq.toList.reverse.map (fun c => (dictGet complement c).getD c))
+
+/-- GFA.path_exists on the tokens of `re.findall` -/
+def pathExists (g : Graph) (ordered_path : List Tok) : Except PyErr Bool :=
+  let cases : List ((Char × Char) × (Bool × Bool)) := [(('>', '>'), (true, false)), (('<', '<'), (false, true)), (('>', '<'), (true, true)), (('<', '>'), (false, false))]
+  match forEach (pyRange (1 : Int) (ordered_path.length : Int)) () (fun _ i =>
+    match pyGet ordered_path (i - (1 : Int)) with
+    | none => .exc .indexError
+    | some x1 =>
+    let n1 := x1
+    match pyGet ordered_path i with
+    | none => .exc .indexError
+    | some x2 =>
+    let n2 := x2
+    match dictGet cases (n1.1, n2.1) with
+    | none =>
+      .ret false
+    | some x3 =>
+    let case := x3
+    let ok := false
+    match g.find n1.2 with
+    | none => .exc .keyError
+    | some x4 =>
+    match forEach (sideSet x4 case.1) ok (fun ok edge =>
+      if ((n2.2, case.2) == (edge.1, edge.2.1)) then
+        let ok := true
+        .cont ok
+      else
+        .cont ok) with
+    | .ret v => .ret v
+    | .exc e => .exc e
+    | .cont ok =>
+    if (!ok) then
+      .ret false
+    else
+      .cont ()) with
+  | .ret v => .ok v
+  | .exc e => .error e
+  | .cont _ =>
+  .ok true
+
+/-- GFA.extract_path -/
+def extractPath (g : Graph) (path : String) : Except PyErr String :=
+  let seq : List _ := []
+  match pyGet path.toList (0 : Int) with
+  | none => .error .indexError
+  | some x1 =>
+  if (!(['<', '>'].contains x1)) then
+    .ok ""
+  else
+    let path := (findall (fun c => c == '>' || c == '<') (fun c => !(c == '>' || c == '<')) 1 none path.toList)
+    match pathExists g path with
+    | .error e => .error e
+    | .ok x2 =>
+    if (!x2) then
+      .ok ""
+    else
+      match forEach path seq (fun seq n =>
+        if (!(g.has n.2)) then
+          .ret ""
+        else
+          if (n.1 == '>') then
+            match g.find n.2 with
+            | none => .exc .keyError
+            | some x3 =>
+            let seq := seq ++ [x3.seq]
+            .cont seq
+          else
+            if (n.1 == '<') then
+              match g.find n.2 with
+              | none => .exc .keyError
+              | some x4 =>
+              let seq := seq ++ [(revComp x4.seq)]
+              .cont seq
+            else
+              .ret "") with
+      | .ret v => .ok v
+      | .exc e => .error e
+      | .cont seq =>
+      .ok (String.join seq)
+
+/-- find_path.run after the graph is loaded: the printed lines; `reader?` = the lines of the file named by the second argument
+    (`none`: it cannot be opened) -/
+def run (g : Graph) (input_path : String) (reader? : Option (List String)) (fasta : Bool) : Except PyErr (List String) :=
+  let out : List String := []
+  match pyGet input_path.toList (0 : Int) with
+  | none => .error .indexError
+  | some x1 =>
+  if (['>', '<'].contains x1) then
+    let nodes := [input_path]
+    match extractPath g input_path with
+    | .error e => .error e
+    | .ok x2 =>
+    let path_seqs := [x2]
+    if fasta then
+      match forEach (List.zip nodes path_seqs) out (fun out x3 =>
+        let node := x3.1
+        let path_seq := x3.2
+        let out := out ++ [(">seq_" ++ node)]
+        let out := out ++ [path_seq]
+        .cont out) with
+      | .ret v => .ok v
+      | .exc e => .error e
+      | .cont out =>
+      .ok out
+    else
+      match forEach (List.zip nodes path_seqs) out (fun out x4 =>
+        let node := x4.1
+        let path_seq := x4.2
+        let out := out ++ [path_seq]
+        .cont out) with
+      | .ret v => .ok v
+      | .exc e => .error e
+      | .cont out =>
+      .ok out
+  else
+    match reader? with
+    | none => .error .osError
+    | some reader =>
+    let nodes : List _ := []
+    let path_seqs : List _ := []
+    match forEach reader (nodes, path_seqs) (fun st line =>
+      let nodes := st.1
+      let path_seqs := st.2
+      let nodes := nodes ++ [(pyStrip line)]
+      match pyGet nodes (-1 : Int) with
+      | none => .exc .indexError
+      | some x5 =>
+      match extractPath g x5 with
+      | .error e => .exc e
+      | .ok x6 =>
+      let path_seqs := path_seqs ++ [x6]
+      .cont (nodes, path_seqs)) with
+    | .ret v => .ok v
+    | .exc e => .error e
+    | .cont st =>
+    let nodes := st.1
+    let path_seqs := st.2
+    if fasta then
+      match forEach (List.zip nodes path_seqs) out (fun out x7 =>
+        let node := x7.1
+        let path_seq := x7.2
+        let out := out ++ [(">seq_" ++ node)]
+        let out := out ++ [path_seq]
+        .cont out) with
+      | .ret v => .ok v
+      | .exc e => .error e
+      | .cont out =>
+      .ok out
+    else
+      match forEach (List.zip nodes path_seqs) out (fun out x8 =>
+        let node := x8.1
+        let path_seq := x8.2
+        let out := out ++ [path_seq]
+        .cont out) with
+      | .ret v => .ok v
+      | .exc e => .error e
+      | .cont out =>
+      .ok out
+
+end Gaftools.Gen.PathWalk
+'''
 
 FALLBACK["StatLoop"] = _STAT_PRELUDE % "FALLBACK (source construct outside the translator's subset): run_stat as modelled by hand" + """def statFor_cnt (v_all_cigars : List Str) (s : St) (v_cnt : Nat) : St :=
   { s with cig := bump s.cig (v_all_cigars.getD v_cnt [], v_all_cigars.getD (v_cnt + 1) []) }
